@@ -85,4 +85,120 @@ def hexDigitOctet (n : Nat) : UInt8 := if n < 10 then UInt8.ofNat (48 + n) else 
 def renderHex (rd : List UInt8) : List UInt8 :=
   rd.flatMap fun b => [hexDigitOctet (b.toNat / 16), hexDigitOctet (b.toNat % 16)]
 
+/-- the part of the RFC 3597 form after `\#`: the length, and the hex digits if it is not 0 -/
+def genericTail (sep rd : List UInt8) : List UInt8 :=
+  sep ++ decimal rd.length ++ (if rd.isEmpty then [] else sep ++ renderHex rd)
+
+/-! ### records and files — the presentation subset of `C23_records_partial`
+
+  One record per line: `[owner] [ttl] [class] TYPEnnn \# len [hex] [;comment]`, fields separated
+  by runs of blanks; the owner is an absolute name in any mix of octet forms, or omitted
+  (leading blanks: same owner as before); TTL and class are written (decimal, `CLASSnnn`) or
+  omitted; blank and comment-only lines in between.  Not in this subset (see C23.lean): relative
+  names and `@`, class-then-TTL order, mnemonics, typed RDATA, parentheses, `$ORIGIN`/`$TTL`,
+  CRLF. -/
+
+inductive POwner where
+  | same
+  | abs (ls : List PLabel)
+  deriving Repr, Inhabited
+
+structure PRecord where
+  owner : POwner
+  ttl : Option Nat
+  cls : Option Nat
+  ty : Nat
+  rdata : List UInt8
+  sep : List UInt8
+  trail : List UInt8
+  comment : List UInt8
+  deriving Repr, Inhabited
+
+inductive PEntry where
+  | blank (ws comment : List UInt8)
+  | record (p : PRecord)
+  deriving Repr, Inhabited
+
+def isBlank (c : UInt8) : Bool := c == 32 || c == 9
+
+def renderRecord (p : PRecord) : List UInt8 :=
+  (match p.owner with
+   | .same => []
+   | .abs ls => renderAbsName ls) ++ p.sep ++
+  (match p.ttl with
+   | some t => decimal t ++ p.sep
+   | none => []) ++
+  (match p.cls with
+   | some c => renderClass c ++ p.sep
+   | none => []) ++
+  renderType p.ty ++ p.sep ++ 92 :: 35 :: (genericTail p.sep p.rdata ++ (p.trail ++ p.comment ++ [10]))
+
+def renderEntry : PEntry → List UInt8
+  | .blank ws comment => ws ++ comment ++ [10]
+  | .record p => renderRecord p
+
+def renderFile (es : List PEntry) : List UInt8 := es.flatMap renderEntry
+
+/-- what is carried from record to record (RFC 1035 §5.1, RFC 2308 §4) -/
+structure SCtx where
+  prevOwner : Option (List UInt8) := none
+  prevTtl : Option Nat := none
+  prevClass : Option Nat := none
+  defaultTtl : Option Nat := none
+  deriving Repr, Inhabited
+
+/-- a denoted record: line, owner (wire form), TTL, class, type, RDATA -/
+structure SRecord where
+  line : Nat
+  owner : List UInt8
+  ttl : Nat
+  cls : Nat
+  ty : Nat
+  rdata : List UInt8
+  deriving Repr, DecidableEq, Inhabited
+
+/-- RFC 2181 §8: a TTL with the most significant bit set is treated as zero -/
+def ttlValue (t : Nat) : Nat := if t > 2147483647 then 0 else t
+
+/-- newlines inside the owner text (written `\` + newline): the lines a record spans beyond one -/
+def ownerLines : POwner → Nat
+  | .same => 0
+  | .abs ls => (ls.map fun l => (l.filter fun x => x.2 = .esc ∧ x.1 = 10).length).sum
+
+/-- the owner a record line denotes: the written absolute name, or the previous owner -/
+def ownerOf (c : SCtx) (p : PRecord) : Option (List UInt8) :=
+  match p.owner with
+  | .same => c.prevOwner
+  | .abs ls => some (wireName (ls.map labelOctets))
+
+/-- the TTL: the written one, else the `$TTL` default, else the previous record's (RFC 2308 §4) -/
+def ttlOf (c : SCtx) (p : PRecord) : Option Nat :=
+  match p.ttl with
+  | some t => some (ttlValue t)
+  | none => c.defaultTtl.or c.prevTtl
+
+/-- the class: the written one, else the previous record's -/
+def clsOf (c : SCtx) (p : PRecord) : Option Nat :=
+  match p.cls with
+  | some k => some k
+  | none => c.prevClass
+
+/-- the record a presentation denotes in a context, and the context after it; `none` when
+    something omitted has nothing to default to -/
+def denoteRecord (c : SCtx) (line : Nat) (p : PRecord) : Option (SRecord × SCtx) :=
+  match ownerOf c p, ttlOf c p, clsOf c p with
+  | some owner, some ttl, some cls =>
+    some (⟨line, owner, ttl, cls, p.ty, p.rdata⟩,
+          { c with prevOwner := some owner, prevTtl := some ttl, prevClass := some cls })
+  | _, _, _ => none
+
+/-- the records a file denotes, with their line numbers -/
+def denoteFile : List PEntry → SCtx → Nat → Option (List SRecord)
+  | [], _, _ => some []
+  | .blank _ _ :: es, c, line => denoteFile es c (line + 1)
+  | .record p :: es, c, line => do
+    let (r, c') ← denoteRecord c line p
+    let rest ← denoteFile es c' (line + ownerLines p.owner + 1)
+    pure (r :: rest)
+
 end QV.Spec.ZF
